@@ -7,7 +7,7 @@ ROOT = os.path.dirname(os.path.dirname(os.path.abspath(__file__)))
 CHECKS = {
  "C01": dict(
   technique="runtime monitor: reference-model oracle (independent big-step evaluator over the core-language AST) comparing the value read back at the data-trait boundary after executing the real pipeline; shadow-stack agreement checked on the way",
-  text="Every core-language AST with at most 3 nodes (4 thorough) over 12 atoms, 25 binary and 10 unary operators, lists, nested expressions, conditionals, separators and side-effect blocks x 3 (10) input values, 72 bounded reapply loops (8 templates), hand-written regression programs and 400 000 (20 million) random programs up to several hundred nodes are printed with minimal parentheses, compiled and run to completion on both stores under a scripted host; the current value is read back through getters and compared strictly with the reference evaluator's value.",
+  text="Every core-language AST with at most 3 nodes (4 thorough) over 12 atoms, 27 binary operators (incl. concatenation `<>` and partial application `~`) and 10 unary operators, lists, nested expressions, conditionals, separators and side-effect blocks x 4 (13) input values (unit, numbers, text, keyed lists, pairs, concatenations, slices of a list / a concatenation / text), 72 bounded reapply loops (8 templates), hand-written regression programs and 400 000 (20 million) random programs up to several hundred nodes are printed with minimal parentheses, compiled and run to completion on both stores under a scripted host; the current value is read back through getters and compared strictly with the reference evaluator's value.",
   note="trusts the S-rules implemented in eval.rs; runs touching semantics the rules do not pin are skipped (counted); the printer is self-checked against the reference parser on every case",
   design="DESIGN.md §3.3, §3.4, §5 C01"),
  "C02": dict(
@@ -17,17 +17,17 @@ CHECKS = {
   design="DESIGN.md §5 C02, Appendix D"),
  "C03": dict(
   technique="runtime monitor: panic capture + logical-step budgets (verif_hooks tick counters, instruction/data budgets enforced at the data-trait boundary) over bounded-exhaustive token-class sequences, soups and scaling families; witness delta-minimisation",
-  text="Every sequence of 33 token classes up to length 3 (4 thorough, 5 without fillers) with gap fillers, random token and character soups and 14 scaling families up to 4096 (16384) repetitions are pushed through lex, parse and build into both stores; the monitor demands Ok or Err from each stage, no unwinding, at most 64(n+4)^3 loop iterations per stage and at most 16(n+4) instructions / 64(n+4)+4L data cells for an n-token input. The repository's own tests/scripts/*.garnish files (whole, and cut into prefixes / suffixes) are part of the corpus.",
+  text="Every sequence up to length 5 (6 thorough) over four focused 10-token alphabets (conditionals, blocks and lists, expressions and apply forms, separators), every sequence of 33 token classes up to length 3 (4 thorough, 5 without fillers) with gap fillers, random token soups, character soups and literal soups (char-list / byte-list / number tokens assembled from valid, boundary and malformed escape, code-point and digit fragments) and 14 scaling families up to 4096 (16384) repetitions are pushed through lex, parse and build into both stores; the monitor demands Ok or Err from each stage, no unwinding, at most 64(n+4)^3 loop iterations per stage and at most 16(n+4) instructions / 64(n+4)+4L data cells for an n-token input. The repository's own tests/scripts/*.garnish files (whole, and cut into prefixes / suffixes) are part of the corpus.",
   note="termination/cost decided on logical steps against a fixed cubic bound; aborts (stack overflow, OOM) are caught by the driver's crash path",
   design="DESIGN.md §5 C03, Appendix B"),
  "C04": dict(
   technique="runtime monitor: offline checker over the recorded parse tree and instruction metadata of every accepted input (link agreement, reachability, in-order token accounting, one instruction per node)",
-  text="The same corpus as C03 restricted to inputs that parse and build accept: the recorded ParseResult is checked for agreeing child/parent links, no sharing or cycle, every non-separator node reachable from the root, an in-order walk listing the significant tokens exactly once in source order, and every value/operator node attributed at least one emitted instruction. The repository's own tests/scripts/*.garnish files (whole, and cut into prefixes / suffixes) are part of the corpus.",
+  text="The same corpus as C03 (plus every small AST and random well-formed programs from the C01 generators, a quarter of them with restarts `^~` at arbitrary positions) restricted to inputs that parse and build accept: the recorded ParseResult is checked for agreeing child/parent links, no sharing or cycle, every non-separator node reachable from the root, an in-order walk listing the significant tokens exactly once in source order, and every value/operator node attributed at least one emitted instruction. The repository's own tests/scripts/*.garnish files (whole, and cut into prefixes / suffixes) are part of the corpus.",
   note="violations are keyed by structural root cause (node kinds and relation); dropped redundant separators may remain as unreachable garbage nodes",
   design="DESIGN.md §5 C04"),
  "C05": dict(
   technique="runtime monitor: offline checker over the built instruction stream read back through the data trait + the monitored build's event log (placeholder pushes and patches)",
-  text="Every accepted input of the corpus on both stores: operands of Put/Resolve name existing values of the right kind, jump operands and expression values name existing jump entries, every entry written by the build points inside the program and every placeholder recorded in the event log was patched, the stream ends in EndExpression/JumpTo, the reported entry is one of the build's own entries, and there is exactly one metadata record per instruction naming an existing node. The repository's own tests/scripts/*.garnish files (whole, and cut into prefixes / suffixes) are part of the corpus.",
+  text="Every accepted input of the corpus (C03's inputs plus generated well-formed programs, a quarter of them with restarts `^~` at arbitrary positions) on both stores: operands of Put/Resolve name existing values of the right kind, jump operands and expression values name existing jump entries, every entry written by the build points inside the program and every placeholder recorded in the event log was patched, the stream ends in EndExpression/JumpTo, the reported entry is one of the build's own entries, and there is exactly one metadata record per instruction naming an existing node. The repository's own tests/scripts/*.garnish files (whole, and cut into prefixes / suffixes) are part of the corpus.",
   note="placeholders are known from the event log at the trait boundary, not inferred from values",
   design="DESIGN.md §5 C05"),
  "C06": dict(
@@ -37,7 +37,7 @@ CHECKS = {
   design="DESIGN.md §5 C06, Appendix A"),
  "C07": dict(
   technique="runtime monitor: panic capture around every execution step of accepted programs (incl. boundary-literal programs) under three host modes, on an overflow-checking build and a release build",
-  text="Every accepted input of the corpus plus programs combining 34 boundary literals (i32 limits, huge/tiny/infinite floats, empty and multi-byte text, out-of-range indexes, ranges, slices) with 36 binary and 13 unary operators are executed step by step on both stores with no host, a declining host and an accepting host under a step budget; any unwinding is a violation. Runs under the `mon` (overflow-checks, debug-assertions) and `release` profiles. The repository's own tests/scripts/*.garnish files (whole, and cut into prefixes / suffixes) are part of the corpus.",
+  text="Every accepted input of the corpus plus every program `a op b` / `op a` / `a op` over 57 boundary literals (i32 limits, huge/tiny/infinite floats, empty and multi-byte text, out-of-range indexes, ranges and slices incl. bounds at i32::MAX-1, negative starts, a float bound of 1e300, reversed ranges, concatenations holding such slices) and 36 binary / 13 unary operators, and random two-operator programs over the same pool, are executed step by step on both stores with no host, a declining host and an accepting host under a step budget and a store-call budget; any unwinding is a violation. Runs under the `mon` (overflow-checks, debug-assertions) and `release` profiles. The repository's own tests/scripts/*.garnish files (whole, and cut into prefixes / suffixes) are part of the corpus.",
   note="Err results are acceptable; aborts are caught by the driver's crash path",
   design="DESIGN.md §5 C07"),
  "C13": dict(
@@ -57,7 +57,7 @@ CHECKS = {
   design="DESIGN.md §5 C15"),
  "C16": dict(
   technique="runtime monitor: reference-model oracle (insertion-ordered sequence + key map) over store API calls and Access/Apply instructions on built lists and concatenations",
-  text="Every list of length<=3 (4 thorough) over 7 item kinds exhaustively, plus random lists up to 24 (64) items and concatenations with adversarial distinct symbol keys; on both stores the monitor reads length, every index inside and outside, iteration order, and looks up every present key and several absent keys, directly and through the Access/Apply instructions, comparing each answer with the sequence/key-map model and flagging any error.",
+  text="Every list of length<=3 (4 thorough) over 7 item kinds exhaustively, plus random lists up to 24 (64) items and concatenations with adversarial distinct symbol keys; on both stores the monitor reads length, every index inside and outside, iteration order, and looks up every present key and several absent keys, directly and through the Access/Apply instructions (each of which must replace its two operands by exactly one result), reads the length through AccessLengthInternal and the item sequence through a cast to a list, comparing each answer with the sequence/key-map model and flagging any error.",
   note="keys are distinct per value; apply on concatenations and fractional indexes are outside the property",
   design="DESIGN.md §5 C16"),
  "C08": dict(
@@ -67,7 +67,7 @@ CHECKS = {
   design="DESIGN.md §5 C08, Appendix C"),
  "C11": dict(
   technique="runtime monitor: reference-model oracle (structural equality on read-back values) + relational-law checker over observed results + sentinel-under-operands balance check",
-  text="All ordered pairs of 334 small values (27 leaves of 14 kinds and every width<=2 pair/list/concatenation over 9 bases) exhaustively, plus random trees (depth<=3 quick, 5 thorough) each paired with an identical copy, a reshaped equivalent, a one-point mutant or an unrelated tree, built in four construction orders; Equal and NotEqual are executed on both stores with a sentinel operand underneath and compared with an independent structural equality; symmetry, negation and transitivity are checked on the observed answers.",
+  text="All ordered pairs of 334 small values (27 leaves of 14 kinds and every width<=2 pair/list/concatenation over 9 bases) exhaustively, plus random trees (depth<=3 quick, 5 thorough) each paired with an identical copy, a reshaped equivalent, a one-point mutant or an unrelated tree, built in four construction orders, every eighth case a value that holds one shared sub-value two or three times; Equal and NotEqual are executed on both stores with a sentinel operand underneath and compared with an independent structural equality; symmetry, negation and transitivity are checked on the observed answers.",
   note="trusts the reference equality incl. its list/concatenation flattening rule; NaN and slices are outside the generator",
   design="DESIGN.md §5 C11"),
  "C12": dict(
@@ -87,12 +87,12 @@ CHECKS = {
   design="DESIGN.md §5 C10"),
  "C17": dict(
   technique="runtime monitor: recorded host-callback history (resolve / apply events at the GarnishData boundary and inside the stores' native hooks) checked against an independent reference evaluator's expected call log and value",
-  text="Templates with identifiers and externals at operand positions, every small AST that mentions an identifier, and random programs are run under hosts that resolve none/some/all symbols (to values and externals) and accept or decline external applies, with input values defining none/some/all identifiers. Each program runs four ways: wrapper-scripted host on both stores, SimpleGarnishData::set_resolver, and a BasicDataCompanion implementing resolve and apply. The recorded sequence of resolve(symbol) / apply(external, argument) calls and the final value must equal the reference evaluator's; the log written inside the native callback must equal the one at the trait boundary. Held on the programs observed.",
+  text="Templates with identifiers and externals at operand positions (incl. partial applications of host-provided values and of expressions), every small AST that mentions an identifier, and random programs are run under hosts that resolve none/some/all symbols (to values and externals) and accept or decline external applies, with input values defining none/some/all identifiers (lists, pairs, concatenations, slices). Each program runs four ways: wrapper-scripted host on both stores, SimpleGarnishData::set_resolver, and a BasicDataCompanion implementing resolve and apply. The recorded sequence of resolve(symbol) / apply(external, argument) calls and the final value must equal the reference evaluator's; the log written inside the native callback must equal the one at the trait boundary. Held on the programs observed.",
   note="trusts: the reference evaluator's lookup rule (input value first, then host) and left-to-right operand order; SimpleGarnishData has no apply hook, so native acceptance of external applies is exercised on BasicGarnishData only (as the property scopes it)",
   design="DESIGN.md §5 C17"),
  "C18": dict(
   technique="runtime monitor: metamorphic oracle over executions - each generated program is run as printed and after every single meaning-free layout rewrite (and random combinations); observed parse tree, final value on both stores and host-call sequence are compared; where a rewrite is admissible is decided by the reference lexer and reference parser, not by the code under test",
-  text="Every small AST and random larger programs are rewritten at every position: widen / replace / remove blank runs, insert a blank or an annotation between adjacent tokens, annotation or comment line inside a blank run, trailing blanks before line breaks and at the end, comment lines after line breaks and at the start, parentheses around every operand, effect-free side-effect blocks added after every value or group and dropped where present, plus random combinations of 2..7 rewrites. The rewritten text must parse to the same tree (modulo trivia, added groups, added blocks) and produce the same value and resolve-call sequence on both stores. Held on the programs and rewrite positions observed. The repository's own tests/scripts/*.garnish files (whole, and cut into prefixes / suffixes) are part of the corpus.",
+  text="Every small AST and random larger programs are rewritten at every position: widen / replace / remove blank runs, insert a blank or an annotation between adjacent tokens, annotation or comment line inside a blank run, trailing blanks before line breaks and at the end, comment lines after line breaks and at the start, parentheses around every operand, effect-free side-effect blocks added after every value or group, before every plain operand that follows a binary operator or a comma, and dropped where present, plus random combinations of 2..7 rewrites. The rewritten text must parse to the same tree (modulo trivia, added groups, added blocks) and produce the same value and resolve-call sequence on both stores. Held on the programs and rewrite positions observed. The repository's own tests/scripts/*.garnish files (whole, and cut into prefixes / suffixes) are part of the corpus.",
   note="trusts: the reference lexer/parser as the judge of where blanks may be added or removed; programs with side-effect blocks have no reference tree and only get rewrites that need no confirmation plus the structural ones",
   design="DESIGN.md §5 C18"),
  "C19": dict(
